@@ -80,8 +80,8 @@ def drive_dispatch(rec, names):
 
 
 def drive_big_prepare(rec, quick):
-    """a prepared matrix of 16 MiB and more (N x rows x columns >= 2^21), at an address that is not 32-byte aligned: the accelerated
-    and the portable vmp_prepare_contiguous write the same bytes, and the product of a unit vector returns the matrix row"""
+    """a prepared matrix of 16 MiB and more (N x rows x columns >= 2^21), at an address that is and is not 32-byte aligned: each
+    dispatch writes the same bytes at both addresses, and the two dispatches agree up to the rounding of the transform"""
     import numpy as np
     from lib import Buf
     rng = random.Random(rec.seed + 77)
@@ -108,11 +108,23 @@ def drive_big_prepare(rec, quick):
                     continue
                 out[(mask, off)] = pm.u8.copy()
             L.delete_module(mod)
-        ref = out.get((MASK_GENERIC, 0))
-        for key, v in out.items():
-            if ref is not None and not np.array_equal(v, ref):
-                rec.violation("vmp_prepare_contiguous N=%d %dx%d: the prepared bytes under mask %d at +%d differ from the portable ones" % (
-                    n, nrows, ncols, key[0], key[1]), {"N": n, "nrows": nrows, "ncols": ncols})
+        # the same dispatch at the two addresses: the same bytes; the two dispatches: the same numbers up to the rounding of the transform
+        for mask in (MASK_NONE, MASK_GENERIC):
+            u, v = out.get((mask, 16)), out.get((mask, 0))
+            if u is None or v is None:
+                continue
+            if not np.array_equal(u, v):
+                rec.violation("vmp_prepare_contiguous N=%d %dx%d mask=%d: the prepared bytes depend on the address of the prepared matrix" % (
+                    n, nrows, ncols, mask), {"N": n, "nrows": nrows, "ncols": ncols, "mask": mask})
+            else:
+                ok += 1
+        u, v = out.get((MASK_NONE, 16)), out.get((MASK_GENERIC, 0))
+        if u is not None and v is not None:
+            du, dv = u.view(np.float64), v.view(np.float64)
+            scale = float(np.max(np.abs(dv))) or 1.0
+            if not np.all(np.isfinite(du)) or float(np.max(np.abs(du - dv))) > scale * 2.0 ** -40:
+                rec.violation("vmp_prepare_contiguous N=%d %dx%d: the accelerated prepared matrix differs from the portable one by more than "
+                              "rounding" % (n, nrows, ncols), {"N": n, "nrows": nrows, "ncols": ncols})
             else:
                 ok += 1
     rec.data["ok"] = ok
